@@ -6,6 +6,7 @@ import (
 	"fmt"
 	"log"
 	"math/rand"
+	"sync"
 
 	"github.com/lugu/qiloop/meta/signature"
 	"github.com/lugu/qiloop/type/conversion"
@@ -100,6 +101,12 @@ func (p proxy) SubscribeID(action uint32) (func(), chan []byte, error) {
 		return nil, nil, err
 
 	}
+	// the count and the remote registration change together: a second
+	// subscriber must not return before the first one is registered.
+	if l, ok := p.client.(interface{ subscribeLock() *sync.Mutex }); ok {
+		l.subscribeLock().Lock()
+		defer l.subscribeLock().Unlock()
+	}
 	subscriptions := p.client.State(fmt.Sprintf("%d.%d.%d", p.service, p.object, action), 1)
 	if subscriptions == 1 {
 		handler := rand.Int()
@@ -111,6 +118,10 @@ func (p proxy) SubscribeID(action uint32) (func(), chan []byte, error) {
 		}
 	}
 	return func() {
+		if l, ok := p.client.(interface{ subscribeLock() *sync.Mutex }); ok {
+			l.subscribeLock().Lock()
+			defer l.subscribeLock().Unlock()
+		}
 		subscriptions := p.client.State(fmt.Sprintf("%d.%d.%d", p.service, p.object, action), -1)
 		if subscriptions == 0 {
 			handler := p.client.State(fmt.Sprintf("%d.%d.%d.handler", p.service, p.object, action), 0)
